@@ -70,7 +70,7 @@ Proof. exact accept_examples. Qed.
 (* ---- acceptance and the node's own mempool over several blocks (Node/AcceptPool.v) ----
    AddBlock takes a block transaction it finds in the node's mempool as verified.  With the refresh of
    storeBlock evaluated AFTER the height moved to the stored block, and keeping only what a fresh
-   verification at that height admits, every pooled transaction is valid at every later moment ... *)
+   verification at that height lets_in, every pooled transaction is valid at every later moment ... *)
 Theorem C06_pool_sound : forall (tx_valid relevant : N -> N -> bool) (verify : bool),
   (forall h t, relevant h t = true -> tx_valid h t = true) ->
   forall ops n0, PoolOK tx_valid (prun tx_valid relevant verify true (n0, []) ops).
@@ -141,13 +141,13 @@ Proof. exact accept_no_signer_conflict_all. Qed.
 Print Assumptions C06_accept_no_signer_conflict.
 
 (* spelled out for one block over a chain whose events are sorted by height and not above the current height *)
-Theorem C06_admitted_no_signer_conflict :
+Theorem C06_accepted_no_signer_conflict :
   forall (mtb : N) (es : list cevent) (cur : N) (txs : list ctx),
-    sorted es -> below es cur -> block_admitted true mtb es cur txs = true ->
+    sorted es -> below es cur -> block_accepted true mtb es cur txs = true ->
     forall t e s, In t txs -> In e es -> traceable (e_idx e) cur mtb = true ->
                   In (ct_hash t) (e_names e) -> In s (ct_signers t) -> ~ In s (e_signers e).
-Proof. exact admitted_no_signer_conflict'. Qed.
-Print Assumptions C06_admitted_no_signer_conflict.
+Proof. exact accepted_no_signer_conflict'. Qed.
+Print Assumptions C06_accepted_no_signer_conflict.
 
 (* the variant that asks with the sender only accepts a block whose transaction's SECOND signer backs an
    on-chain conflict *)
